@@ -32,7 +32,13 @@ Inductive case :=
   (* count-limited authorizations: [st] = (granter, grantee, kind, uses; 0 = generic); the only
      requirement is the signature of [granter]; the same message of kind [m] signed by [signers]
      is sent [length obs] times in a row (real keeper call or real message), [obs] = accepted? *)
-| CCount (m : Z) (st : list (Z * Z * Z * Z)) (granter : Z) (signers : list Z) (obs : list bool).
+| CCount (m : Z) (st : list (Z * Z * Z * Z)) (granter : Z) (signers : list Z) (obs : list bool)
+  (* the same with EXPIRATIONS and block times (seconds): [st] = (granter, grantee, kind, uses,
+     expiration; 0 = none); message i is sent at block time [times_i]; observed per message: accepted?
+     and, for every key of [st], what GetAuthorization reports afterwards (-1 nothing stored,
+     0 stored without expiration, x stored with expiration x) *)
+| CCountT (m : Z) (st : list (Z * Z * Z * Z * Z)) (granter : Z) (signers : list Z)
+          (times : list Z) (obs : list (bool * list Z)).
 
 Definition implies (a b : bool) : bool := negb a || b.
 
@@ -45,7 +51,52 @@ Definition literal_tag : string :=
 Definition mk_store (l : list (Z * Z * Z * Z)) : cstore :=
   map (fun g => {| cg_granter := fst (fst (fst g)); cg_grantee := snd (fst (fst g));
                    cg_kind := snd (fst g);
-                   cg_left := if Z.eqb (snd g) 0 then None else Some (snd g) |}) l.
+                   cg_left := if Z.eqb (snd g) 0 then None else Some (snd g); cg_exp := None |}) l.
+
+Definition mk_store_t (l : list (Z * Z * Z * Z * Z)) : cstore :=
+  map (fun g => let q := fst g in
+                {| cg_granter := fst (fst (fst q)); cg_grantee := snd (fst (fst q));
+                   cg_kind := snd (fst q);
+                   cg_left := if Z.eqb (snd q) 0 then None else Some (snd q);
+                   cg_exp := if Z.eqb (snd g) 0 then None else Some (snd g) |}) l.
+
+Fixpoint zs_eqb (a b : list Z) : bool :=
+  match a, b with
+  | [], [] => true
+  | x :: a', y :: b' => Z.eqb x y && zs_eqb a' b'
+  | _, _ => false
+  end.
+Fixpoint obs_eqb (a b : list (bool * list Z)) : bool :=
+  match a, b with
+  | [], [] => true
+  | x :: a', y :: b' => Bool.eqb (fst x) (fst y) && zs_eqb (snd x) (snd y) && obs_eqb a' b'
+  | _, _ => false
+  end.
+
+(** some authorization of the ORIGINAL store, from [granter] to a signer under a message type that
+    counts for [m], is live at block time [now] *)
+Definition live_grant_exists (m now : Z) (st : list (Z * Z * Z * Z * Z)) (granter : Z) (signers : list Z) : bool :=
+  existsb (fun g => let q := fst g in
+                    Z.eqb (fst (fst (fst q))) granter && mem (snd (fst (fst q))) signers &&
+                    mem (snd (fst q)) (authz_urls m) &&
+                    (Z.eqb (snd g) 0 || Z.leb now (snd g))) st.
+
+Fixpoint all_live_when_accepted (m : Z) (st : list (Z * Z * Z * Z * Z)) (granter : Z) (signers : list Z)
+  (times : list Z) (obs : list (bool * list Z)) : bool :=
+  match times, obs with
+  | now :: ts, o :: os =>
+      (negb (fst o) || live_grant_exists m now st granter signers) &&
+      all_live_when_accepted m st granter signers ts os
+  | _, _ => true
+  end.
+
+(** every expiration reported after a message is the originally granted one, or nothing is stored *)
+Definition exps_unchanged (st : list (Z * Z * Z * Z * Z)) (obs : list (bool * list Z)) : bool :=
+  forallb (fun o => zs_eqb (map (fun p => if Z.eqb (fst p) (-1) then -1 else snd p)
+                                (combine (snd o) (map snd st)))
+                           (map (fun p => if Z.eqb (fst p) (-1) then -1 else fst p)
+                                (combine (snd o) (map snd st)))
+                    && Nat.eqb (List.length (snd o)) (List.length st)) obs.
 
 Fixpoint bools_eqb (a b : list bool) : bool :=
   match a, b with
@@ -116,7 +167,7 @@ Definition check (c : case) : list string :=
          tag (negb (doc_direct e op signers))
              "prop:message rejected although every required party signed directly and the roles are present")
   | CCount m st granter signers obs =>
-      tag (bools_eqb (messages (List.length obs) (mk_store st) granter signers m) obs)
+      tag (bools_eqb (messages (repeat 1 (List.length obs)) (mk_store st) granter signers m) obs)
           "corr:count-limited authorizations: accept/reject sequence differs from the counted transcription of findAuthzGrantee" ++
       (if mem granter signers then []
        else
@@ -130,6 +181,23 @@ Definition check (c : case) : list string :=
               | Some _ => no_true_after_false obs
               end)
              "prop:message accepted again after the count-limited authorizations were used up")
+  | CCountT m st granter signers times obs =>
+      tag (obs_eqb (messages_obs (mk_store_t st) times (mk_store_t st) granter signers m) obs &&
+           Nat.eqb (List.length times) (List.length obs))
+          "corr:expiring count-limited authorizations: accept/reject or stored expirations differ from the counted transcription of findAuthzGrantee" ++
+      (if mem granter signers then []
+       else
+         tag (all_live_when_accepted m st granter signers times obs)
+             "prop:message accepted through an authz grant although no grant from the party to a signer was live at that block time") ++
+      tag (exps_unchanged st obs)
+          "prop:using an authorization changed its expiration" ++
+      (if mem granter signers then []
+       else
+         tag (match uses_available m (map fst st) granter signers with
+              | None => true
+              | Some n => Z.leb (Z.of_nat (List.length (filter (fun o => fst o) obs))) n
+              end)
+             "prop:count-limited authorizations stood in for more messages than the uses granted")
   end.
 
 Definition check_all := check_list check.
